@@ -100,9 +100,20 @@ func GenTree(t *rapid.T, o TreeOpts) *Node {
 					name = GenName(t, "portable", l) + "_"
 				}
 			default:
-				name = GenName(t, class, l)
+				if rel := rapid.IntRange(0, 5).Draw(t, l+"-related"); rel == 0 && len(out) > 0 {
+					// a name related to a sibling's: extended by a suffix, or a proper prefix of it (path-prefix
+					// confusion, sort order of equal prefixes, ISO name mapping)
+					prev := out[rapid.IntRange(0, len(out)-1).Draw(t, l+"-relprev")].Name
+					if rs := []rune(prev); rapid.IntRange(0, 5).Draw(t, l+"-relkind") == 0 && len(rs) > 1 {
+						name = string(rs[:1+rapid.IntRange(0, len(rs)-2).Draw(t, l+"-relcut")])
+					} else {
+						name = prev + rapid.SampledFrom([]string{"2", "_", "0", "A", "a", ".x", "-1"}).Draw(t, l+"-relsuffix")
+					}
+				} else {
+					name = GenName(t, class, l)
+				}
 			}
-			if used[name] || name == "" || len(name) > 255 {
+			if used[name] || name == "" || name == "." || name == ".." || len(name) > 255 {
 				continue
 			}
 			fold := strings.ToUpper(name)
